@@ -167,6 +167,14 @@ def run_case(case, ctx):
                 continue
             want = OS.entropy(lens) / (math.log(len(lens)) if normalize else 1.0)
             expect(ctx, "value-inf-flags", pe(ctx, Ainf, **kw), [want], "flags %r, %d infinite bars" % (kw, n_inf), extra)
+    # a substitution value of exactly zero (falsy!) for infinite bars born below zero
+    shift = max(b + l for l, b in zip(ls, births)) + 1.0
+    Dneg = [[b - shift, b + l - shift] for l, b in zip(ls, births)]          # whole barcode below 0
+    Dz = [[-2.0, INF]] + Dneg + [[-0.5, INF]]
+    for vz in (0.0, 0, -0.0):
+        want = OS.entropy(list(ls) + [2.0, 0.5])
+        expect(ctx, "value-inf-flags", pe(ctx, np.array(Dz, dtype=float), keep_inf=True, val_inf=vz), [want],
+               "keep_inf=True, val_inf=%r" % (vz,), {"dgm": Dz})
     # list of diagrams -> vector of the individual entropies (in order)
     others = [[[0.0, 1.0]], [[0.0, 1.0], [1.0, 4.0]], [[2.0, 2.5], [0.0, 3.0], [1.0, 2.0]]]
     for k in (1, 2, 3):
